@@ -618,7 +618,9 @@ private:
       child("idx", AS->getIdx());
     } else if (const auto *UE = dyn_cast<UnaryExprOrTypeTraitExpr>(S)) {
       J.attribute("k", "sizeof");
-      (void)UE;
+      if (UE->getKind() != UETT_SizeOf) J.attribute("uk", (int64_t)UE->getKind());
+      QualType AT = UE->isArgumentType() ? UE->getArgumentType() : UE->getArgumentExpr()->getType();
+      J.attribute("st", In.get(typeStr(AT)));
     } else if (const auto *DA = dyn_cast<CXXDefaultArgExpr>(S)) {
       J.attribute("k", "defarg");
       child("sub", DA->getExpr());
